@@ -56,7 +56,11 @@ def vm_slice_obligation(prop="C02"):
     o["defines"].update({"VERIF_M0": 128, "VERIF_M1": 128, "VERIF_M2": 4, "VERIF_STACK_SIZE": 5, "VERIF_ARR_CAP": 3})
     o["unwind"] = 5
     o["strength"] = "B(source array capacity <= 3, int elements; start and length over the full int64 range)"
-    return [o]
+    q = vmstep.step(prop, "%s.vm.STR_SUBSTR" % prop, "h_c02_substr", "STR_SUBSTR", must_have=[r"C02\.vm STR_SUBSTR", r"COVER"], timeout=900, witness=None)
+    q["defines"].update({"VERIF_M0": 128, "VERIF_M1": 128, "VERIF_M2": 2, "VERIF_STACK_SIZE": 5})
+    q["unwind"] = 30
+    q["strength"] = "B(source string length <= 3; start and length over the full int64 range)"
+    return [o, q]
 
 
 def cg_obligations(prop="C02"):
